@@ -678,12 +678,13 @@ func c15PairStateReset(c *Ctx, rule string) {
 
 // c15EmptyForms: the empty string is a legitimate key, and the empty text is
 // the canonical form of an empty collection.
-//  (a) the map splitter never compares the key it hands to its callback with the
-//      constant "" (that would make "" mean 'no key' and the printed form
-//      `"":"v"` unreadable);
-//  (b) a parser that cuts its input with strings.Split (which returns one empty
-//      element for the empty string) and parses every element first tests the
-//      input for emptiness and returns an empty result.
+//
+//	(a) the map splitter never compares the key it hands to its callback with the
+//	    constant "" (that would make "" mean 'no key' and the printed form
+//	    `"":"v"` unreadable);
+//	(b) a parser that cuts its input with strings.Split (which returns one empty
+//	    element for the empty string) and parses every element first tests the
+//	    input for emptiness and returns an empty result.
 func c15EmptyForms(c *Ctx, rule string) {
 	w := c.W
 	sm := w.fn("parse", "splitMap")
